@@ -61,7 +61,24 @@ def run_case(case):
             res['harness'] = 'dependency missing: ' + se[-200:]
             return res
         if rc != 0 or not os.path.exists(out1):
-            viol.append((classify_rejection(se), 'compiler exit %s on scanner output: %s' % (rc, se.strip()[-400:]), replay))
+            key = classify_rejection(se)
+            if key == 'rejected:other':
+                # differential attribution to the recorded mechanism "introspectable field whose inline callback is not
+                # introspectable": the same GIR without exactly those fields must compile
+                def drop(m):
+                    cb = re.search(r'<callback\b[^>]*>', m.group(0))
+                    return '' if (cb and 'introspectable="0"' in cb.group(0) and 'introspectable="0"' not in m.group(1)) else m.group(0)
+                fixed = re.sub(r'<field\b([^>]*)>(?:(?!</field>).)*</field>', drop, gir, flags=re.S)
+                if fixed != gir:
+                    g2 = os.path.join(d, 'alt', name)
+                    os.makedirs(os.path.dirname(g2))
+                    with open(g2, 'w', encoding='utf-8') as f:
+                        f.write(fixed)
+                    rc2, so2, se2 = csan.compile_gir(info, g2, os.path.join(d, 'alt.typelib'), incdirs)
+                    if rc2 == 0:
+                        key = 'crash:field-with-non-introspectable-callback'
+                        hits['attributed_by_recompiling_without_those_fields'] += 1
+            viol.append((key, 'compiler exit %s on scanner output: %s' % (rc, se.strip()[-400:]), replay))
             return res
         se_clean = '\n'.join(l for l in se.splitlines() if 'runtime error' not in l and not l.startswith('    #') and l.strip() and 'SUMMARY' not in l)
         if se_clean.strip():
